@@ -32,6 +32,8 @@ struct PeerPlan {
     late_ms: u64,
     /// pieces it has but leaves out of its bitfield and announces with `Have` when the first request arrives
     have_later: Vec<usize>,
+    /// unchokes us at once, before we could be interested, and announces `have_later` with `Have` a moment afterwards
+    eager: bool,
 }
 
 fn msg(id: u8, payload: &[u8]) -> Vec<u8> {
@@ -144,10 +146,24 @@ fn serve_conn(
     if plan.interested && !write_segmented(&mut s, &msg(2, &[]), &mut r) {
         return;
     }
+    let mut eager_unchoked = false;
+    if plan.eager {
+        if !write_segmented(&mut s, &msg(1, &[]), &mut r) {
+            return;
+        }
+        eager_unchoked = true;
+        std::thread::sleep(std::time::Duration::from_millis(100));
+        for i in plan.have_later.iter() {
+            if !write_segmented(&mut s, &msg(4, &(*i as u32).to_be_bytes()), &mut r) {
+                return;
+            }
+        }
+        announced_later = true;
+    }
     let mut buf: Vec<u8> = vec![];
     let mut reorder = plan.seed % 3 == 0 && plan.drop_after.is_none();
     let mut reorder_again = false;
-    let mut unchoked = false;
+    let mut unchoked = eager_unchoked;
     let mut sent = 0usize;
     let mut tmp = [0u8; 65536];
     loop {
@@ -291,9 +307,11 @@ pub fn child(seed: u64, pl: usize, lens: &str, honest: usize, droppers: usize, m
     //       6 = a slow seeder and late, fast twins: the first peer has everything and answers slowly, every other peer has
     //           exactly one piece, answers at once but is slow to accept the connection; the last piece is at the seeder only;
     //           everybody stays (the seeder loses the race for the piece it was asked first and must go on with another)
+    //       7 = an eager seeder: the only peer; an empty bitfield, Unchoke at once, and only then Have for every piece
     let crowd = mode == 5;
     let twin = mode == 6;
-    let stay = mode == 1 || mode == 3 || crowd || twin;
+    let eager = mode == 7;
+    let stay = mode == 1 || mode == 3 || crowd || twin || eager;
     let disjoint = mode == 2 || mode == 3 || crowd;
     let choke_race = mode == 4;
     let chokes = seed % 3 == 0;
@@ -351,11 +369,18 @@ pub fn child(seed: u64, pl: usize, lens: &str, honest: usize, droppers: usize, m
     }
     for h in 0..honest {
         let slow_ms = if (disjoint && !crowd || twin) && h == 0 { 150 } else { 0 };
-        plans.push(PeerPlan { pieces: own[h].clone(), drop_after: None, drop_mid: false, seed: r.next(), slow_ms, chokes, choke_first: choke_race && h == 0, interested: crowd, late_ms: if twin && h > 0 { 120 } else { 0 }, have_later: vec![] });
+        plans.push(PeerPlan { pieces: own[h].clone(), drop_after: None, drop_mid: false, seed: r.next(), slow_ms, chokes, choke_first: choke_race && h == 0, interested: crowd, late_ms: if twin && h > 0 { 120 } else { 0 }, have_later: vec![], eager: false });
     }
     for _ in 0..droppers {
         let pieces: Vec<bool> = (0..npieces).map(|_| r.coin()).collect();
-        plans.push(PeerPlan { pieces, drop_after: Some(r.below(3) as usize), drop_mid: r.coin(), seed: r.next(), slow_ms: 0, chokes: false, choke_first: false, interested: false, late_ms: 0, have_later: vec![] });
+        plans.push(PeerPlan { pieces, drop_after: Some(r.below(3) as usize), drop_mid: r.coin(), seed: r.next(), slow_ms: 0, chokes: false, choke_first: false, interested: false, late_ms: 0, have_later: vec![], eager: false });
+    }
+    if eager {
+        for p in plans.iter_mut() {
+            p.have_later = (0..npieces).filter(|i| p.pieces[*i]).collect();
+            p.eager = true;
+            p.chokes = false;
+        }
     }
     r.shuffle(&mut plans);
     let stop = Arc::new(AtomicBool::new(false));
@@ -498,7 +523,15 @@ pub fn gen(r: &mut Rng, n: usize) -> Vec<String> {
     let mut out = vec![];
     for k in 0..n {
         // scenario families that matter for the bookkeeping, then free mixtures
-        let family = k % 8;
+        let family = k % 9;
+        if family == 8 {
+            // an eager seeder (mode 7): Unchoke before anything is on offer, the pieces announced with Have afterwards
+            let pl = *r.pick(&[16usize, 16384, 20000]);
+            let npieces = 1 + r.below(4) as usize;
+            let total = pl * npieces - r.below(pl as u64 / 2) as usize;
+            out.push(format!("e2e {} {} {} 1 0 7", r.below(1 << 30), pl, total));
+            continue;
+        }
         if family == 7 {
             // a piece count that is a multiple of eight (the bitfield has no spare bits), one or two honest peers that have
             // the last pieces
